@@ -638,6 +638,45 @@ def run_fixed_step_count(case):
     return {"bad": bad[:5], "n": n}
 
 
+def run_long_horizon(case):
+    """fixed-step runs of 2-6 million steps (rounding of the running time sum included): completion after ceil(t_max/dt) steps give or
+    take one - i.e. still running after ceil - 3 steps, complete at the latest 5 steps later; progress at 100 % then"""
+    use_repo()
+    engines.install()
+    import strengths as st
+    r = gen.rng_for(case["seed"], "C10long", case["idx"])
+    kind_ = r.choice(["euler", "tauleap"])
+    nst = r.choice([2_000_003, 3_000_000, 6_000_001])
+    dt = r.choice([1e-3, 2.0 ** -10, 7e-4])
+    tmax = dt * (nst - 0.5)
+    net = st.RDNetwork([st.Species("A", D=0.05 / dt * 1e-3, density=0)], [st.Reaction("A -> ", kf=1e-7 / dt)])
+    if r.random() < 0.5:
+        space = st.RDGridSpace(w=2, h=1, d=1)
+    else:
+        space = st.RDGraphSpace([st.RDGraphSpaceNode(), st.RDGraphSpaceNode()], [st.RDGraphSpaceEdge(0, 1)])
+    system = st.RDSystem(net, space, state=[500, 300])
+    script = st.RDScript(system, t_sample=[0], t_max=tmax, time_step=dt, sampling_policy="no_sampling", rng_seed=1, init_state_processing="none")
+    e = engines.get(kind_)
+    e.setup(script)
+    want = math.ceil(tmax / dt)
+    still = e.iterate_n(want - 3)
+    its = want - 3
+    bad = []
+    if not still:
+        bad.append({"what": "long fixed-step run completes more than one step before ceil(t_max/dt)", "steps": its, "expected": want, "engine": kind_, "dt": dt})
+    else:
+        while its < want + 6:
+            its += 1
+            if not e.iterate():
+                break
+        if not e.is_complete() or abs(its - want) > 1:
+            bad.append({"what": "long fixed-step run does not complete after ceil(t_max/dt) +- 1 iterations", "iterations": its, "expected": want,
+                        "complete": e.is_complete(), "engine": kind_, "dt": dt, "t_max": tmax, "progress": e.get_progress()})
+    e.finalize()
+    return {"bad": bad, "counts": {"long_horizon_runs": 1}, "key": chash(["long", case["seed"], case["idx"]]), "nontrivial": True,
+            "sample": {"steps": want, "engine": kind_, "dt": dt}}
+
+
 # ---------------------------------------------------------------------------------------------
 
 def main():
@@ -844,6 +883,8 @@ def main():
             run.count("fixed_step_count_checks", r_["value"]["n"])
             for b in r_["value"]["bad"]:
                 run.violation(b["what"][:60], b, mech={"what": "fixed-step-count"})
+        from vf.sandbox import run_extra as _run_extra0
+        _run_extra0(run, "vf.checks.c10:run_long_horizon", [{"seed": sd, "idx": i} for i in range(12 if thorough else 3)], cpu_budget=300)
         # ---------------- (F) one script object handed to several engines ----------------
         from vf.sandbox import run_extra as _run_extra
         _run_extra(run, "vf.checks.c10:run_script_reuse", [{"seed": sd, "idx": i} for i in range(1500 if thorough else 150)], cpu_budget=60)
